@@ -125,6 +125,10 @@ def block(rng, d, bd):
                 cells.append([rng.choice(["|", "|", "!"]), attrs(rng, 0.3), rng.choice([lead, lead, " ", ""]),
                               inls(rng, min(d - 1, 2), False, True, 2) if rng.random() < 0.93 else [],
                               bool(ci > 0 and rng.random() < 0.35)])
+            for ci in range(1, len(cells)):
+                # (parser matter, C03: a first ||-style cell containing '=' is read as row attributes)
+                if cells[ci][4] and "=" in r_inls(cells[ci - 1][3]) + r_attrs(cells[ci - 1][1]):
+                    cells[ci][4] = False
             rows.append([attrs(rng, 0.25), cells])
         cap = None
         if rng.random() < 0.35:
@@ -143,6 +147,21 @@ def block(rng, d, bd):
     return ["p", [["magic", rng.choice(MAGICS)]] + (inls(rng, 0, False, False, 1) if rng.random() < 0.6 else [])]
 
 
+def tidy(blocks):
+    """A leading-blank line is always followed by a block that ends the preformatted run (list, rule,
+    heading) or by nothing: otherwise the parser keeps later lines -- and a later table with everything
+    after it -- inside the PREFORMATTED node (a parser matter, not a serialiser one)."""
+    i = 0
+    while i < len(blocks) - 1:
+        if blocks[i][0] == "spre" and blocks[i + 1][0] not in ("list", "hr", "h", "deftwo"):
+            blocks.insert(i + 1, ["hr"])
+        i += 1
+    for b in blocks:
+        if b[0] == "div":
+            tidy(b[3])
+    return blocks
+
+
 def gen(rng: random.Random, depth=3):
     doc = []
     for _ in range(rng.randint(1, 4)):
@@ -150,7 +169,7 @@ def gen(rng: random.Random, depth=3):
             doc.append(["h", rng.choice([1, 2, 2, 3, 3, 4, 5, 6]), inls(rng, min(depth - 1, 1), False, True, 2)])
         for _ in range(rng.randint(1, 3)):
             doc.append(block(rng, depth, 2))
-    return doc
+    return tidy(doc)
 
 
 # ---------------------------------------------------------------- rendering
@@ -543,7 +562,7 @@ def size(doc):
 def shrink(doc):
     """Yield documents obtained by one reduction step (bigger reductions first)."""
     vs = _list_variants(doc, _block_variants, allow_empty=False)
-    vs = [copy.deepcopy(v) for v in vs]
+    vs = [tidy(copy.deepcopy(v)) for v in vs]
     vs.sort(key=size)
     return vs
 
